@@ -1167,8 +1167,8 @@ MA('C18', 'half-complex inverse forgets the real shape (regression)',
    'return np.fft.irfftn(x, s=s, axes=self.axes)',
    'return np.fft.irfftn(x, axes=self.axes)', '_call_numpy:irfftn')
 MA('C09', 'quadratic perturbation Lipschitz without abs', 'odl/solvers/functional/functional.py',
-   'FunctionalQuadraticPerturb.__init__', 'grad_lipschitz = func.grad_lipschitz + 2 * abs(self.quadratic_coeff)',
-   'grad_lipschitz = func.grad_lipschitz + 2 * self.quadratic_coeff', 'grad_lipschitz')
+   'FunctionalQuadraticPerturb.__init__', 'grad_lipschitz = func.grad_lipschitz + 2 * abs(self.__quadratic_coeff)',
+   'grad_lipschitz = func.grad_lipschitz + 2 * self.__quadratic_coeff', 'grad_lipschitz')
 M('C16', 'corner blocks of earlier axes not extended', 'odl/util/numerics.py',
   """        if direction == 'forward':
             working_slc[axis] = full_slc[axis]
@@ -1235,3 +1235,32 @@ M('C18', 'wavelet reconstruction crops only one odd axis', 'odl/trafos/wavelet.p
   """                    if n_recon == n_intended + 1 and not any(
                             s != slice(None) for s in recon_slc):
                         recon_slc.append(slice(-1))""", 'WaveletTransformInverse._call')
+TOPS = 'odl/operator/tensor_ops.py'
+MA('C05', 'MatrixOperator adjoint without conjugation', TOPS,
+   'MatrixOperator.adjoint',
+   'return MatrixOperator(self.matrix.conj().T, domain=self.range, range=self.domain, axis=self.axis)',
+   'return MatrixOperator(self.matrix.T, domain=self.range, range=self.domain, axis=self.axis)',
+   'MatrixOperator[complex]')
+MA('C05', 'MatrixOperator adjoint forgets the axis', TOPS,
+   'MatrixOperator.adjoint',
+   'return MatrixOperator(self.matrix.conj().T, domain=self.range, range=self.domain, axis=self.axis)',
+   'return MatrixOperator(self.matrix.conj().T, domain=self.range, range=self.domain)',
+   'MatrixOperator[2-d domain, axis=1]')
+MA('C05', 'SamplingOperator adjoint pairs integrate with dirac', TOPS,
+   'SamplingOperator.adjoint', "variant = 'char_fun'", "variant = 'dirac'",
+   'SamplingOperator[discretized,integrate]')
+MA('C05', 'WeightedSumSampling dirac multiplies by the cell volume', TOPS,
+   'WeightedSumSamplingOperator._call', 'out /= weights', 'out *= weights',
+   'discretized')
+MA('C05', 'Flattening adjoint scaled the wrong way', TOPS,
+   'FlatteningOperator.adjoint', 'return 1 / scaling * self.inverse',
+   'return scaling * self.inverse', 'FlatteningOperator[discretized')
+MA('C05', 'Flattening inverse adjoint unscaled', TOPS,
+   'FlatteningOperator.inverse.FlatteningOperatorInverse.adjoint',
+   'return scaling * op', 'return op',
+   'FlatteningOperator.inverse[discretized]')
+MA('C05', 'Flattening inverse ignores the order', TOPS,
+   'FlatteningOperator.inverse.FlatteningOperatorInverse._call',
+   'return np.reshape(x.asarray(), self.range.shape, order=op.order)',
+   'return np.reshape(x.asarray(), self.range.shape)',
+   'order=F')
